@@ -1371,6 +1371,8 @@ def trinterp(start, end, s=None):
 
     if not 0 <= s <= 1: 
         raise ValueError("s outside interval [0,1]")
+    if isinstance(s, np.floating):
+        s = float(s)  # (a NumPy float16 / float32 scalar would keep s * theta in its own precision)
 
     if base.ismatrix(end, (3, 3)):
         # SO(3) case
